@@ -1,9 +1,12 @@
 //! `sched run FILE` — runs every case of FILE (PROTOCOL_SCHED.md) on the real `sync::Arena` under the
-//! controlled scheduler and prints the output of each case followed by a line `end`.
+//! controlled scheduler and prints the output of each case followed by a line `end`. A journal goes to stderr:
+//! `sched-begin <i>` before case `i` (index in FILE, from 0) and `sched-done <i>` after its output is flushed.
+//! `sched run FILE --only K` runs only case K (same output as in the full run).
 //!
-//! `sched gen --seed S --cases N --profile fast|list|refs|aba --out PREFIX` — generates N cases, writes
-//! PREFIX.cases (input) and PREFIX.impl (what `sched run PREFIX.cases` prints) and a JSON summary
-//! line on stderr. Every random choice derives from one `SplitMix64` seeded with S.
+//! `sched gen --seed S --cases N --profile fast|list|refs|aba|crashseq --out PREFIX` — generates N cases, writes
+//! PREFIX.cases (input; appended case by case BEFORE the case is run, so that the last case of the file is the
+//! culprit when the crate under test kills the process) and PREFIX.impl (what `sched run PREFIX.cases` prints)
+//! and a JSON summary line on stderr. Every random choice derives from one `SplitMix64` seeded with S.
 
 use std::fmt::Write as _;
 use std::io::Write as _;
@@ -13,7 +16,9 @@ use rarena_verif_harness::sched::*;
 use rarena_verif_harness::*;
 
 fn usage() -> ! {
-  eprintln!("usage: sched run FILE\n       sched gen --seed S --cases N --profile fast|list|refs|aba --out PREFIX");
+  eprintln!(
+    "usage: sched run FILE [--only K]\n       sched gen --seed S --cases N --profile fast|list|refs|aba|crashseq --out PREFIX"
+  );
   std::process::exit(2)
 }
 
@@ -21,13 +26,28 @@ fn main() {
   install_panic_hook();
   let args: Vec<String> = std::env::args().skip(1).collect();
   match args.first().map(|s| s.as_str()) {
-    Some("run") if args.len() == 2 => run(&args[1]),
+    Some("run") if args.len() == 2 => run(&args[1], None),
+    Some("run") if args.len() == 4 && args[2] == "--only" => match args[3].parse::<usize>() {
+      Ok(k) => run(&args[1], Some(k)),
+      Err(_) => usage(),
+    },
     Some("gen") => gen(&args[1..]),
     _ => usage(),
   }
 }
 
-fn run(file: &str) {
+/// one line of the journal on stderr (unbuffered; flushed anyway): `sched-begin <i>` before case `i` (index in the
+/// file, from 0) starts, `sched-done <i>` after its output has been written and flushed to stdout. When the crate
+/// under test kills the process, the last `sched-begin` without `sched-done` names the case.
+fn journal(what: &str, i: usize) {
+  let stderr = std::io::stderr();
+  let mut e = stderr.lock();
+  let _ = writeln!(e, "sched-{what} {i}");
+  let _ = e.flush();
+}
+
+/// `only`: run just that case of the file (same case number, hence the same output as in the full run)
+fn run(file: &str, only: Option<usize>) {
   let text = std::fs::read_to_string(file).unwrap_or_else(|e| {
     eprintln!("cannot read {file}: {e}");
     std::process::exit(2)
@@ -36,7 +56,18 @@ fn run(file: &str) {
   let stdout = std::io::stdout();
   let mut out = std::io::BufWriter::new(stdout.lock());
   let (mut hangs, mut panics) = (0, 0);
-  for (i, c) in parse_cases(&text).iter().enumerate() {
+  let cases = parse_cases(&text);
+  if let Some(k) = only {
+    if k >= cases.len() {
+      eprintln!("sched: --only {k}: the file has {} case(s)", cases.len());
+      std::process::exit(2);
+    }
+  }
+  for (i, c) in cases.iter().enumerate() {
+    if only.is_some_and(|k| k != i) {
+      continue;
+    }
+    journal("begin", i);
     match c {
       Ok(c) => {
         let r = run_case(c, tmp.path(), i as u64 + 1);
@@ -48,6 +79,7 @@ fn run(file: &str) {
     }
     writeln!(out, "end").expect("stdout");
     out.flush().expect("stdout");
+    journal("done", i);
   }
   if hangs > 0 || panics > 0 {
     eprintln!("sched: {hangs} case(s) with hang lines, {panics} panic answer(s)");
@@ -64,6 +96,7 @@ enum Profile {
   List,
   Refs,
   Aba,
+  CrashSeq,
 }
 
 struct Gen {
@@ -72,12 +105,64 @@ struct Gen {
   probe_no: u64,
 }
 
+/// The probe arenas of the `crashseq` generator: `a` has the layout of the crash-point run (backend `file`), `b`
+/// (when the case names another backend) the layout of the case as written. Sizes are chosen by looking at `a`;
+/// `b` follows so that the generator can tell what is safe in BOTH layouts.
+struct Probe2 {
+  a: Box<dyn CaseApi>,
+  b: Option<Box<dyn CaseApi>>,
+}
+
+impl Probe2 {
+  fn arena(&self) -> ArenaInfo {
+    self.a.arena()
+  }
+  fn arenas(&self) -> Vec<ArenaInfo> {
+    std::iter::once(self.a.arena()).chain(self.b.as_ref().map(|b| b.arena())).collect()
+  }
+}
+
+/// Executes `line` on the probe arenas (the answer is that of `a`). With `SCHED_GEN_TRACE=1` in the environment the
+/// line is written to stderr first (the probe runs the crate under test: when it kills the generator, the last line
+/// says where).
+fn px(probe: &mut Probe2, line: &str) -> String {
+  trace_probe(line);
+  if let Some(b) = probe.b.as_mut() {
+    b.exec(line);
+  }
+  probe.a.exec(line)
+}
+
+/// the cursor `rewind <kind> <v>` leads to (the crate's clamping rules)
+fn rewind_target(info: &ArenaInfo, kind: &str, v: i64) -> i64 {
+  let (al, d, cap) = (info.allocated as i64, info.data_offset as i64, info.capacity as i64);
+  let clamp = |x: i64| x.max(d).min(cap);
+  match kind {
+    "start" => clamp(v),
+    "end" => {
+      if v > cap {
+        d
+      } else {
+        clamp(cap - v)
+      }
+    }
+    _ => clamp(al.saturating_add(v)),
+  }
+}
+
+fn trace_probe(line: &str) {
+  static TRACE: std::sync::OnceLock<bool> = std::sync::OnceLock::new();
+  if *TRACE.get_or_init(|| std::env::var_os("SCHED_GEN_TRACE").is_some()) {
+    eprintln!("probe {line}");
+  }
+}
+
 /// rough number of atomic accesses of an op (only used to shape the schedules)
 fn est_steps(op: &str, slow: bool) -> u64 {
   match op.split(' ').next().unwrap_or("") {
-    "fill" | "verify" => 0,
-    "clone" | "refs" | "set_minseg" | "inc_discarded" => 1,
-    "drop_arena" => 2,
+    "fill" | "verify" | "flush" => 0,
+    "clone" | "refs" | "set_minseg" | "inc_discarded" | "clear" => 1,
+    "drop_arena" | "rewind" => 2,
     "alloc_bytes_owned" => 4,
     o if o.starts_with("alloc") => {
       if slow {
@@ -476,6 +561,282 @@ impl Gen {
     c
   }
 
+  // ---- crashseq: whole histories of ONE worker (for crash-point mode), with clear / rewind / flush ----------
+  /// a size for `alloc_bytes` that aims at the free list or at the bump area of the probe
+  fn cs_size(&mut self, probe: &Probe2) -> u64 {
+    let info = probe.arena();
+    let rem = info.remaining as u64;
+    let ms = info.minseg as u64;
+    let fl: Vec<u64> = info.fl.iter().map(|n| n.1 as u64).collect();
+    if !fl.is_empty() && self.rng.chance(55) {
+      let s = self.rng.pick(&fl);
+      match self.rng.below(8) {
+        0 => s,
+        1 => s.saturating_sub(1),
+        2 => s / 2,
+        3 => s + 1,
+        4 => s.saturating_sub(ms + 8),
+        5 => s.saturating_sub(ms + 9),
+        _ => self.rng.range(1, s.max(1)),
+      }
+      .max(1)
+    } else {
+      match self.rng.below(7) {
+        0 => rem,
+        1 => rem.saturating_sub(1),
+        2 => rem + 1,
+        3 => rem / 2,
+        4 if self.rng.chance(30) => 0,
+        _ => self.rng.range(1, rem.clamp(1, 96)),
+      }
+    }
+  }
+
+  /// one allocation of thread 1 (+ fill, + verify), executed on the probe as well
+  fn cs_alloc(&mut self, probe: &mut Probe2, ops: &mut Vec<String>, id: &mut u32, live: &mut Vec<u32>, typed: bool) {
+    let line = if typed {
+      let info = probe.arena();
+      let maxseg = info.fl.iter().map(|n| n.1 as u64).max().unwrap_or(0);
+      let (a, s) = self.pick_ty(maxseg.max((info.remaining as u64).min(64)).max(8));
+      format!("alloc_t {id} {a} {s}")
+    } else {
+      let n = self.cs_size(probe);
+      format!("alloc_bytes {id} {n}")
+    };
+    let ok = px(probe, &line).starts_with("r=ok");
+    ops.push(line);
+    if ok {
+      live.push(*id);
+    }
+    // (a failed allocation is followed by `fill` / `verify` too now and then: they answer `r=nohandle`)
+    if self.rng.chance(if ok { 85 } else { 15 }) {
+      let line = format!("fill {id} {}", self.byte());
+      px(probe, &line);
+      ops.push(line);
+      if self.rng.chance(50) {
+        ops.push(format!("verify {id}"));
+      }
+    }
+    *id += 1;
+  }
+
+  /// the arguments of a `rewind`: in range or out of range
+  fn cs_rewind(&mut self, probe: &Probe2) -> (&'static str, i64) {
+    let info = probe.arena();
+    let (al, d, cap) = (info.allocated as i64, info.data_offset as i64, info.capacity as i64);
+    let r = &mut self.rng;
+    match r.below(3) {
+      0 => {
+        let v: i64 = match r.below(8) {
+          0 => 0,
+          1 => (d - 1).max(0),
+          2 => d,
+          3 => al,
+          4 | 5 => r.range(d as u64, al as u64) as i64,
+          6 => cap + r.below(3) as i64 * 7,
+          _ => {
+            let over = cap + 1 + r.below(100) as i64;
+            r.pick(&[over, u32::MAX as i64])
+          }
+        };
+        ("start", v)
+      }
+      1 => {
+        let v: i64 = match r.below(8) {
+          0 => 0,
+          1 => cap - al,
+          2 | 3 => r.range(0, (cap - d) as u64) as i64,
+          4 => cap - d,
+          5 => cap,
+          6 => cap + 1 + r.below(50) as i64,
+          _ => u32::MAX as i64,
+        };
+        ("end", v)
+      }
+      _ => {
+        let v: i64 = match r.below(10) {
+          0 => 0,
+          1 | 2 => -(r.range(1, (al - d).max(1) as u64) as i64),
+          3 => -(al - d),
+          4 => -al,
+          5 => -(al + 1 + r.below(100) as i64),
+          6 => r.range(1, (cap - al).max(1) as u64) as i64,
+          7 => cap,
+          8 => i64::MIN,
+          _ => i64::MAX,
+        };
+        ("cur", v)
+      }
+    }
+  }
+
+  fn case_crashseq(&mut self) -> SchedCase {
+    let mut cfg = self.base_cfg(&[0, 1, 2], 30);
+    if cfg.backend == 0 && self.rng.chance(25) {
+      cfg.backend = 1;
+    }
+    cfg.minseg = self.rng.pick(&[0, 1, 8, 16]);
+    // the crash-point driver rewrites the backend to `file`, which always has the unified layout: the capacity
+    // is computed for, and the sizes are chosen on, that layout (with another backend a few more bytes stay free)
+    let mut pcfg = cfg.clone();
+    pcfg.backend = 2;
+    cfg.cap = pcfg.prefix().max(cfg.prefix()) + self.rng.range(256, 1024) as u32;
+    pcfg.cap = cfg.cap;
+    let mut c = SchedCase { cfg: cfg.line(), budget: 600, ..Default::default() };
+    self.probe_no += 1;
+    trace_probe(&pcfg.line());
+    let (a, _) = open_case(&pcfg.line(), None, self.tmp.path(), 3_000_000 + self.probe_no);
+    let b = (pcfg != cfg).then(|| {
+      self.probe_no += 1;
+      open_case(&cfg.line(), None, self.tmp.path(), 3_000_000 + self.probe_no).0.expect("probe arena")
+    });
+    let mut probe = Probe2 { a: a.expect("probe arena"), b };
+    let mut pre: Vec<String> = Vec::new();
+    let run = |pre: &mut Vec<String>, probe: &mut Probe2, line: String| -> String {
+      let a = px(probe, &line);
+      pre.push(line);
+      a
+    };
+    // ---- pre: filled blocks, the bump area exhausted or not, some blocks released
+    let mut h = 0u32;
+    let mut blocks: Vec<u32> = Vec::new();
+    for _ in 0..self.rng.range(3, 8) {
+      let rem = probe.arena().remaining as u64;
+      if rem < 40 {
+        break;
+      }
+      let n = self.rng.range(16, 120).min(rem - 8);
+      let b = self.byte();
+      if run(&mut pre, &mut probe, format!("alloc_bytes {h} {n}")).starts_with("r=ok") {
+        run(&mut pre, &mut probe, format!("fill {h} {b}"));
+        blocks.push(h);
+      }
+      h += 1;
+    }
+    let mut live: Vec<u32> = Vec::new();
+    let rem = probe.arena().remaining as u64;
+    if rem > 0 && self.rng.chance(50) {
+      let leave = if self.rng.chance(30) { self.rng.range(1, 12).min(rem - 1) } else { 0 };
+      if rem - leave > 0 {
+        let b = self.byte();
+        if run(&mut pre, &mut probe, format!("alloc_bytes {h} {}", rem - leave)).starts_with("r=ok") {
+          run(&mut pre, &mut probe, format!("fill {h} {b}"));
+          // the top block: releasing it moves the cursor back
+          if self.rng.chance(40) {
+            live.push(h);
+          }
+        }
+        h += 1;
+      }
+    }
+    let _ = h;
+    let ndrop = self.rng.range(1, 4).min(blocks.len() as u64);
+    for _ in 0..ndrop {
+      let i = self.rng.below(blocks.len() as u64) as usize;
+      let id = blocks.remove(i);
+      run(&mut pre, &mut probe, format!("drop {id}"));
+    }
+    live.extend(blocks);
+    c.pre = pre;
+
+    // ---- thread 1: a sequential history (the probe follows it, so sizes and positions stay meaningful)
+    let mut ops: Vec<String> = Vec::new();
+    let mut id = 100u32;
+    for _ in 0..self.rng.range(3, 7) {
+      match self.rng.weighted(&[24, 8, 10, 16, 6, 5, 4, 12, 10, 5]) {
+        0 => self.cs_alloc(&mut probe, &mut ops, &mut id, &mut live, false),
+        1 => self.cs_alloc(&mut probe, &mut ops, &mut id, &mut live, true),
+        2 => {
+          // fill + verify of an own handle (of a pre handle when there is no own one)
+          let own: Vec<u32> = live.iter().copied().filter(|x| *x >= 100).collect();
+          let cand = if own.is_empty() { live.clone() } else { own };
+          if cand.is_empty() {
+            ops.push("flush".to_string());
+          } else {
+            let o = self.rng.pick(&cand);
+            let line = format!("fill {o} {}", self.byte());
+            px(&mut probe, &line);
+            ops.push(line);
+            ops.push(format!("verify {o}"));
+          }
+        }
+        3 => {
+          if live.is_empty() {
+            px(&mut probe, "discard_freelist");
+            ops.push("discard_freelist".to_string());
+          } else {
+            let i = self.rng.below(live.len() as u64) as usize;
+            let o = live.remove(i);
+            if self.rng.chance(50) {
+              ops.push(format!("verify {o}"));
+            }
+            let line = if self.rng.chance(70) { format!("drop {o}") } else { format!("dealloc {o}") };
+            px(&mut probe, &line);
+            ops.push(line);
+          }
+        }
+        4 => {
+          px(&mut probe, "discard_freelist");
+          ops.push("discard_freelist".to_string());
+        }
+        5 => {
+          let line = format!("set_minseg {}", self.rng.pick(&[0u32, 1, 8, 16, 32, 64]));
+          px(&mut probe, &line);
+          ops.push(line);
+        }
+        6 => {
+          let line = format!("inc_discarded {}", self.rng.range(1, 16));
+          px(&mut probe, &line);
+          ops.push(line);
+        }
+        k @ (7 | 8) => {
+          // whole-arena op: every older handle is gone afterwards and is never named again
+          let line = if k == 7 {
+            "clear".to_string()
+          } else {
+            let (kind, v) = self.cs_rewind(&probe);
+            // `rewind` keeps the free list: a segment that ends above the new cursor would be handed out a second
+            // time by the bump allocator and the next `fill` would overwrite its node header (the list then leads
+            // anywhere: the crate under test kills the process, generator included). The history stays inside the
+            // contract: such segments (in either layout) are discarded first.
+            let risky = probe
+              .arenas()
+              .iter()
+              .any(|info| info.fl.iter().any(|n| n.0 as i64 + n.1 as i64 > rewind_target(info, kind, v)));
+            if risky {
+              px(&mut probe, "discard_freelist");
+              ops.push("discard_freelist".to_string());
+            }
+            format!("rewind {kind} {v}")
+          };
+          px(&mut probe, &line);
+          ops.push(line);
+          live.clear();
+          for _ in 0..self.rng.range(0, 2) {
+            let typed = self.rng.chance(20);
+            self.cs_alloc(&mut probe, &mut ops, &mut id, &mut live, typed);
+          }
+        }
+        _ => ops.push("flush".to_string()),
+      }
+    }
+    drop(probe);
+    let n1: u64 = ops.iter().map(|o| est_steps(o, false)).sum();
+    c.threads.push((1, ops));
+    // `1` repeated generously (the fair round-robin finishes what a slow path needs beyond that)
+    c.sched = vec![(1, false); (n1 * 2 + 8).min(300) as usize];
+    if self.rng.chance(30) {
+      // a bystander that only reads the reference counter: the case keeps a scheduler choice
+      let n2 = self.rng.range(1, 3);
+      c.threads.push((2, vec!["refs".to_string(); n2 as usize]));
+      for _ in 0..n2 + 1 {
+        let at = self.rng.below(c.sched.len() as u64 + 1) as usize;
+        c.sched.insert(at, (2, false));
+      }
+    }
+    c
+  }
+
   // ---- refs: clones, owned handles, tear-down on any thread --------------------------------------
   fn case_refs(&mut self) -> SchedCase {
     let mut cfg = self.base_cfg(&[0, 1, 2], 30);
@@ -606,6 +967,7 @@ fn gen(args: &[String]) {
           "list" => Profile::List,
           "refs" => Profile::Refs,
           "aba" => Profile::Aba,
+          "crashseq" => Profile::CrashSeq,
           _ => usage(),
         })
       }
@@ -619,19 +981,27 @@ fn gen(args: &[String]) {
   }
   let mut g = Gen { rng: SplitMix64(seed), tmp: tempfile::tempdir().expect("tempdir"), probe_no: 0 };
   let run_tmp = tempfile::tempdir().expect("tempdir");
-  let (mut input, mut output) = (String::new(), String::new());
+  let mut output = String::new();
   let (mut hang_cases, mut hang_lines, mut panics, mut skips, mut evs, mut gone, mut unmounts, mut lv0, mut spurious) =
     (0u64, 0u64, 0u64, 0u64, 0u64, 0u64, 0u64, 0u64, 0u64);
   let mut hang_idx: Vec<u64> = Vec::new();
   let mut results: std::collections::BTreeMap<String, u64> = Default::default();
+  if let Some(dir) = Path::new(&out).parent() {
+    let _ = std::fs::create_dir_all(dir);
+  }
+  // PREFIX.cases grows case by case, each one written BEFORE it is run: if the crate under test kills the
+  // process, the last case of the file is the one that did it
+  let mut cases_file = std::fs::File::create(format!("{out}.cases")).expect("write .cases");
   for n in 0..cases {
     let c = match profile {
       Profile::Fast => g.case_fast(),
       Profile::List => g.case_list(),
       Profile::Refs => g.case_refs(),
       Profile::Aba => g.case_aba(),
+      Profile::CrashSeq => g.case_crashseq(),
     };
-    input.push_str(&c.text());
+    cases_file.write_all(c.text().as_bytes()).expect("write .cases");
+    cases_file.flush().expect("write .cases");
     // run exactly what `sched run` will parse
     let parsed = parse_cases(&c.text()).pop().expect("one case").expect("generated case parses");
     let r = run_case(&parsed, run_tmp.path(), n + 1);
@@ -666,10 +1036,7 @@ fn gen(args: &[String]) {
     output.push_str(&r.out);
     output.push_str("end\n");
   }
-  if let Some(dir) = Path::new(&out).parent() {
-    let _ = std::fs::create_dir_all(dir);
-  }
-  std::fs::write(format!("{out}.cases"), &input).expect("write .cases");
+  drop(cases_file);
   std::fs::write(format!("{out}.impl"), &output).expect("write .impl");
   let mut res = String::new();
   for (k, v) in &results {
